@@ -526,7 +526,10 @@ class KeyCache:
                 l1_key=l1_seed,
                 l2_key=b"",
             )
-            return self._seed_keys.setdefault(root_key_id, {}).setdefault(target_sd, {}).setdefault(l0, gke)
+            # The root key can derive every key of this L0, replace any cached
+            # seed key which did not cover the requested position.
+            self._seed_keys.setdefault(root_key_id, {}).setdefault(target_sd, {})[l0] = gke
+            return gke
 
         return None
 
